@@ -18,7 +18,7 @@
    channel: which methods it has, which request buffers parse, whether it completes a request inside
    CallMethod or later) are arbitrary functions. *)
 From OlaBase Require Import Bytes.
-From C09 Require Import Gen Model Final.
+From C09 Require Import Gen GenTxt Model Final.
 Local Open Scope N_scope.
 
 (* Side obligation: the constants of /repo are the property's numbers (1 MB limit, version 1, 4-byte
@@ -30,6 +30,14 @@ Theorem c09_consts :
   = (1, 2, 3, 4, 5, 10).
 Proof. split; reflexivity. Qed.
 Print Assumptions c09_consts.
+
+(* The failure texts the model uses are the string literals of RpcChannel.cpp (GenTxt.v is regenerated
+   from the source text on every run). *)
+Theorem c09_texts :
+  TXT_SEND_FAILED = GenTxt.SRC_SEND_FAILED /\ TXT_DUPLICATE = GenTxt.SRC_DUPLICATE /\
+  TXT_NOT_IMPLEMENTED = GenTxt.SRC_NOT_IMPLEMENTED.
+Proof. repeat split; reflexivity. Qed.
+Print Assumptions c09_texts.
 
 (* Framing safety.  For every history (any bytes, any chunking, calls and failed sends interleaved,
    any starting call state): every Receive into the message buffer writes inside [0, m_buffer_size),
@@ -60,7 +68,8 @@ Theorem c09_reject_closes :
   len h = 4 -> hdr_size (hdr_word h) <> 0 ->
   (hdr_version (hdr_word h) <> PROTOCOL_VERSION \/ 1048576 < hdr_size (hdr_word h)) ->
   descriptor_ready decode method_kind req_ok service ok f r avail = (f', r', rest, evs) ->
-  closed f' = true /\ expected f' = 0 /\ evs = [EvClose] /\ r' = r /\
+  closed f' = true /\ expected f' = 0 /\
+  evs = [EvHdrWrite (len (hdr f)) (N.min (4 - len (hdr f)) (len avail)); EvClose] /\ r' = r /\
   alloc f' = alloc f /\ bufsz f' = bufsz f.
 Proof. exact reject_closes. Qed.
 Print Assumptions c09_reject_closes.
@@ -218,6 +227,106 @@ Theorem c09_send_failed :
 Proof. exact send_failed. Qed.
 Print Assumptions c09_send_failed.
 
+(* Reads and the header array.  For every history: HandleNewMsg only ever parses (reads) [0, n) of the
+   message buffer with n <= the real heap block and n <= 1 MB, and every Receive into the 4-byte header
+   array m_header stays inside it (also when the header arrives in pieces).  Together with
+   c09_frame_safe (writes; the grow / shrink path of AllocateMsgBuffer is part of the model) this is
+   "never reads or writes outside its message buffer" for every byte stream and every chunking. *)
+Theorem c09_reads_safe :
+  forall (decode : list N -> option msg) (method_kind : list N -> N) (req_ok : list N -> bool)
+         (service : list N -> list N -> option sres)
+         (r0 : rpc) (ops : list op) (f : frame) (r : rpc) (tr : list event),
+  run decode method_kind req_ok service init_frame r0 ops = (f, r, tr) ->
+  (forall n al, In (EvParse n al) tr -> n <= al /\ n <= 1048576) /\
+  (forall off n, In (EvHdrWrite off n) tr -> off + n <= 4).
+Proof. exact reads_safe. Qed.
+Print Assumptions c09_reads_safe.
+
+(* After the descriptor was closed (rejected header, undecodable message) the channel reads, writes,
+   dispatches and completes nothing more, whatever arrives; calls still outstanding stay registered
+   (the code never runs their completions: the property speaks of healthy connections only). *)
+Theorem c09_closed_stops :
+  forall (decode : list N -> option msg) (method_kind : list N -> N) (req_ok : list N -> bool)
+         (service : list N -> list N -> option sres) (f : frame) (r : rpc) (bs : list N) (ok : bool),
+  closed f = true -> step decode method_kind req_ok service f r (OpChunk bs ok) = (f, r, []).
+Proof. exact closed_stops. Qed.
+Print Assumptions c09_closed_stops.
+
+(* Serving side, every history (any requests, duplicate ids, unknown methods, the service answering at
+   once or later in any order, failing writes): ids in m_requests are unique, every request handed to
+   the service (numbers below nreq) is exactly one of: outstanding in m_requests and not deleted;
+   superseded (held by the service only) and not deleted; or deleted exactly once.  Requests never
+   handed out are never deleted.  (In the model a request object is deleted only inside the service's
+   completion of that request, so it is never deleted while the service still holds it.) *)
+Theorem c09_server_once :
+  forall (decode : list N -> option msg) (method_kind : list N -> N) (req_ok : list N -> bool)
+         (service : list N -> list N -> option sres)
+         (r0 : rpc) (ops : list op) (f : frame) (r : rpc) (tr : list event),
+  requests r0 = [] -> cancelled r0 = [] -> nreq r0 = 0 ->
+  run decode method_kind req_ok service init_frame r0 ops = (f, r, tr) ->
+  NoDup (map fst (requests r)) /\ NoDup (map snd (requests r)) /\ NoDup (cancelled r) /\
+  (forall q, In q (map snd (requests r)) -> q < nreq r /\ ~ In q (cancelled r) /\ cntN q (freed tr) = 0%nat) /\
+  (forall q, In q (cancelled r) -> q < nreq r /\ cntN q (freed tr) = 0%nat) /\
+  (forall q, q < nreq r -> ~ In q (map snd (requests r)) -> ~ In q (cancelled r) -> cntN q (freed tr) = 1%nat) /\
+  (forall q, nreq r <= q -> cntN q (freed tr) = 0%nat).
+Proof. exact server_once. Qed.
+Print Assumptions c09_server_once.
+
+(* Request dispatch, unknown method: a REQUEST or STREAM_REQUEST for a method the service does not have
+   is answered by exactly one RESPONSE_NOT_IMPLEMENTED carrying the request's id; nothing else changes
+   and the service is not called. *)
+Theorem c09_not_implemented :
+  forall (method_kind : list N -> N) (req_ok : list N -> bool) (service : list N -> list N -> option sres)
+         (cl : bool) (r : rpc) (m : msg) (r' : rpc) (evs : list event),
+  m_type m = REQUEST \/ m_type m = STREAM_REQUEST ->
+  method_kind (m_name m) = 0 -> dead r || cl = false ->
+  dispatch method_kind req_ok service cl true r m = (r', evs) ->
+  evs = [EvSend (mkMsg RESPONSE_NOT_IMPLEMENTED (m_id m) [] [])] /\ r' = r.
+Proof. exact not_implemented. Qed.
+Print Assumptions c09_not_implemented.
+
+(* Request dispatch, known method, valid request, id not outstanding, in any state satisfying the
+   bookkeeping invariant of c09_server_once: the service is called exactly once; if it keeps the callback
+   the request is registered under its id with a fresh number; if it completes at once, exactly its reply
+   (RESPONSE) or its failure text (RESPONSE_FAILED) is written under the request's id and the request
+   object is deleted. *)
+Theorem c09_request_served :
+  forall (method_kind : list N -> N) (req_ok : list N -> bool) (service : list N -> list N -> option sres)
+         (cl : bool) (r : rpc) (m : msg) (r' : rpc) (evs : list event) (fr : list N),
+  ServerOnce.WR r fr -> m_type m = REQUEST ->
+  method_kind (m_name m) <> 0 -> method_kind (m_name m) <> 3 -> req_ok (m_buf m) = true ->
+  lookup (m_id m) (requests r) = None -> dead r || cl = false ->
+  dispatch method_kind req_ok service cl true r m = (r', evs) ->
+  match service (m_name m) (m_buf m) with
+  | None =>
+    evs = [EvService (m_name m) (m_buf m)] /\
+    requests r' = (m_id m, nreq r) :: requests r /\ nreq r' = nreq r + 1
+  | Some res =>
+    evs = [EvService (m_name m) (m_buf m);
+           EvSend (match res with
+                   | SReply b => mkMsg RESPONSE (m_id m) [] b
+                   | SFail t => mkMsg RESPONSE_FAILED (m_id m) [] t
+                   end);
+           EvFreeReq (nreq r)] /\
+    requests r' = requests r /\ nreq r' = nreq r + 1
+  end.
+Proof. exact (request_served (fun _ => None)). Qed.
+Print Assumptions c09_request_served.
+
+(* Deferred completion: when the service completes an outstanding request, exactly its reply / failure
+   text goes out under the id the request came with, and the request object is deleted. *)
+Theorem c09_complete_reply :
+  forall (cl : bool) (r : rpc) (q : N) (res : sres) (id : N) (r' : rpc) (evs : list event),
+  memN q (cancelled r) = false -> key_of q (requests r) = Some id -> dead r || cl = false ->
+  request_complete cl true r q res = (r', evs) ->
+  evs = [EvSend (match res with
+                 | SReply b => mkMsg RESPONSE id [] b
+                 | SFail t => mkMsg RESPONSE_FAILED id [] t
+                 end); EvFreeReq q] /\
+  requests r' = remove id (requests r) /\ cancelled r' = cancelled r.
+Proof. exact complete_reply. Qed.
+Print Assumptions c09_complete_reply.
+
 (* The hypotheses are satisfiable and the statements are not vacuous: a concrete history.
    decode: a body is a message of type RESPONSE whose id is its first byte.  Two calls (ids 0, 1), then
    the reply to id 1 and the reply to id 0 arrive split over four reads, then a duplicate of reply 1. *)
@@ -261,7 +370,8 @@ Example c09_example_reject :
                          [OpChunk [1; 0; 0; 16; 5] true; OpChunk [96; 234; 0; 32] true; OpChunk [65; 65; 65] true] in
   closed f = true /\ expected f = 0 /\ bufsz f = 2048 /\
   dispatched tr = [mkMsg 2 5 [] [5]] /\
-  tr = [EvWrite 0 1 2048 2048; EvDispatch (mkMsg 2 5 [] [5]); EvClose].
+  tr = [EvHdrWrite 0 4; EvWrite 0 1 2048 2048; EvParse 1 2048; EvDispatch (mkMsg 2 5 [] [5]);
+        EvHdrWrite 0 4; EvClose].
 Proof. vm_compute. repeat split; reflexivity. Qed.
 
 (* serving side with a failing reply write: two requests are readable, the write of the first reply
@@ -271,5 +381,26 @@ Example c09_example_reply_write_fails :
                          init_frame init_rpc
                          [OpChunk [1; 0; 0; 16; 5; 1; 0; 0; 16; 6] false; OpChunk [] false] in
   dispatched tr = [mkMsg REQUEST 5 [69] [5]] /\ sends tr = [] /\ dead r = true /\
-  tr = [EvWrite 0 1 2048 2048; EvDispatch (mkMsg REQUEST 5 [69] [5]); EvService [69] [5]; EvChanClose].
+  tr = [EvHdrWrite 0 4; EvWrite 0 1 2048 2048; EvParse 1 2048; EvDispatch (mkMsg REQUEST 5 [69] [5]);
+        EvService [69] [5]; EvChanClose; EvFreeReq 0].
 Proof. vm_compute. repeat split; reflexivity. Qed.
+
+(* the bookkeeping hypothesis of c09_request_served holds of a concrete non-trivial reachable state:
+   request 0 (id 5) superseded by request 1 (same id) and then completed, request 2 (id 6) outstanding *)
+Example c09_example_WR :
+  exists f r tr,
+  run ex_decode_req (fun _ => 1) (fun _ => true) (fun _ _ => None) init_frame init_rpc
+      [OpChunk [1; 0; 0; 16; 5] true; OpChunk [1; 0; 0; 16; 5; 1; 0; 0; 16; 6] true;
+       OpComplete 0 (SReply [7]) true] = (f, r, tr) /\
+  requests r = [(6, 2); (5, 1)] /\ cancelled r = [] /\ nreq r = 3 /\ freed tr = [0] /\
+  ServerOnce.WR r (freed tr).
+Proof.
+  destruct (run ex_decode_req (fun _ => 1) (fun _ => true) (fun _ _ => None) init_frame init_rpc
+      [OpChunk [1; 0; 0; 16; 5] true; OpChunk [1; 0; 0; 16; 5; 1; 0; 0; 16; 6] true;
+       OpComplete 0 (SReply [7]) true]) as [[f r] tr] eqn:E.
+  exists f, r, tr. split; [reflexivity|].
+  assert (HW : ServerOnce.WR r (freed tr)).
+  { eapply ServerOnce.run_W; [|exact E]. exact ServerOnce.W_init. }
+  vm_compute in E. inversion E; subst.
+  split; [reflexivity|]. split; [reflexivity|]. split; [reflexivity|]. split; [reflexivity|]. exact HW.
+Qed.
